@@ -18,6 +18,7 @@ CONSTANTS
   PqRanges = {"mid"}
   Families = {"csv_cols", "csv_opts", "csv_wide", "pq_cols", "pq_time"}
   PqFamCols = 2
+  U64Check = TRUE
   Emit = TRUE
 INVARIANTS Safety EmitInv
 CHECK_DEADLOCK FALSE
